@@ -100,7 +100,7 @@ def _rand_case(rng, nops):
             elif q < 0.4 and hist.get((o, n)):
                 v = rng.choice(hist[(o, n)])                  # restore a previous value
             else:
-                v = rng.choice([0, 0, 1, 1, 2, 3, -1])
+                v = rng.choice([0, 0, 1, 1, 2, 3, -1, 1000, 70000])
             hist.setdefault((o, n), []).append(cur[(o, n)])
             cur[(o, n)] = v
             ops.append(["set", o, n, v])
@@ -309,7 +309,9 @@ def _mk_func(env, j, expr):
         env.cnt[j] += 1
         if j in env.last_reads:
             lr = env.last_reads[j]
-            if all(_cur(env, s) == v for s, v in lr):
+            # (a collected owner upstream makes the cached parents differ from their functions - the known
+            #  finding - so "changed or not" cannot be judged from the store then)
+            if all(_cur(env, s) == v for s, v in lr) and not _dead_upstream(env, j):
                 sub, why = _classify_spurious(env, j)
                 _fail(env, f"C17/Computed/spurious-recompute/{sub}",
                       f"function of c{j} re-run although none of the values it read last time changed "
